@@ -28,7 +28,7 @@ import os, re, sys
 
 REPO = sys.argv[1] if len(sys.argv) > 1 else '/repo'
 ROOT = os.path.dirname(os.path.dirname(os.path.abspath(__file__)))
-OUT = os.path.join(ROOT, 'coq', 'Generated', 'Code.v')
+OUT = sys.argv[2] if len(sys.argv) > 2 and not sys.argv[2].startswith('-') else os.path.join(ROOT, 'coq', 'Generated', 'Code.v')
 
 
 class Unsupported(Exception):
